@@ -534,6 +534,9 @@ func minterBlockTerms(rep *Report, c minterCfg, cid int, times []time.Time, obs 
 // periods (ids, times, kinds, steps and multipliers stay), and the remaining blocks run under the new configuration. The
 // second part is compared with the model started from the state the implementation held right after the update.
 func runMinterUpdateLeg(ta *TestApp, rng *Rng, c minterCfg, st mintertypes.MinterState, t0, T time.Time, idx int, rep *Report) []string {
+	// in a third of the legs the update runs on a branch of the state that is dropped (a proposal or transaction whose later
+	// message fails, a simulation): the schedule in force must stay the configured one
+	discard := rng.Chance(33)
 	times := genPartition(rng, c, t0, T, 0)
 	if len(times) < 3 {
 		return nil
@@ -578,9 +581,17 @@ func runMinterUpdateLeg(ta *TestApp, rng *Rng, c minterCfg, st mintertypes.Minte
 	if !changed {
 		return nil
 	}
-	if err := mk.UpdateParams(ctx, appparams.GetAuthority(), c2.params()); err != nil {
+	uctx := ctx
+	if discard {
+		uctx, _ = ctx.CacheContext()
+	}
+	if err := mk.UpdateParams(uctx, appparams.GetAuthority(), c2.params()); err != nil {
 		rep.Eval("C13.minter_update_keeping_the_current_period_is_accepted", false, idx*10+5, cut, err.Error())
 		return nil
+	}
+	if discard {
+		c2, lowered = c, false
+		rep.Count("update_leg.discarded")
 	}
 	rep.Count("update_leg")
 	s1 := mk.GetMinterState(ctx)
@@ -602,8 +613,18 @@ func runMinterUpdateLeg(ta *TestApp, rng *Rng, c minterCfg, st mintertypes.Minte
 	if lowered {
 		s1k.LastMintBlockTime = times[len(times)-1]
 	}
-	blocks, _ := minterBlockTerms(rep, c2, cid, times[cut:], obs2, lowered, s1k)
+	blocks, tot2 := minterBlockTerms(rep, c2, cid, times[cut:], obs2, lowered, s1k)
 	stuckClass = "K10"
+	if discard {
+		tot := new(big.Int).Set(tot2)
+		for _, o := range obs1 {
+			tot.Add(tot, o.minted)
+		}
+		if want := scheduleCumulative(c, times[len(times)-1]); want != nil {
+			rep.Eval("C02.cumulative_equals_schedule", tot.Cmp(want) == 0, cid, len(times)-1,
+				fmt.Sprintf("minted %v up to %d, the configured schedule gives %v (a parameter update was executed on a dropped branch of the state in between)", tot, times[len(times)-1].UnixNano(), want))
+		}
+	}
 	return []string{fmt.Sprintf("{| mc_id := %d; mc_world := {| mw_params := %s; mw_state := %s; mw_hist := %s; mw_supply := %s |};\n mc_valid := true; mc_blocks := [\n  %s] |}",
 		cid, c2.paramsTerm(), stateTerm(s1), zList(hs), zB(supply1), strings.Join(blocks, ";\n  "))}
 }
